@@ -16,7 +16,7 @@ RULE = ('configurations (local/remote AS over the 2-/4-octet boundary incl. iBGP
         'of 0-4 earlier sessions (accepted, rejected for hold/AS/version, capability-poor, capability-rich; ended in OpenConfirm or Established by close, reset, five NOTIFICATION codes, bad marker, stop/start, silence): the OPEN of every connection is '
         'decoded by the reference decoder and compared with the configuration and with the first OPEN of the world; the answer to the '
         'peer OPEN, the measured hold time and the AS_PATH decoding mode are compared with the policy; '
-        'distinct = distinct (configuration, history shape, peer OPEN) triples')
+        'peerings over IPv4 and over IPv6 (pinned and multihomed local ends, IPv6 addresses below 2^32 included); distinct = distinct (configuration, history shape, peer OPEN) triples')
 ASSUMPTIONS = ['multihomed cases: no local address configured, the simulated socket reports a different local address for every connection', 'ext_nexthop (vpnv4/vpnv6 families) cannot be configured with the installed oslo.config (nested ListOpt default is stringified; get_bgp_config raises) - that capability is not exercised',
                'simulated reactor; the transport reports the configured local address as the local end of the socket',
                'reference OPEN decoder vlib/wire.py']
